@@ -30,7 +30,7 @@ def validate(records: list[dict], tag: str = "trace", timeout: int = 3000):
         results[m["tid"]]["step"] = m
     for m in res.tuples("DONE"):
         results[m["tid"]]["end"] = m
-    missing = [t for t, v in results.items() if v["step"] is None and v["end"] is None]
+    missing = [t for t, v in results.items() if v["end"] is None]
     if missing:
         raise MachineryError(f"{len(missing)} traces neither finished nor reported a mismatch, e.g. {results[missing[0]]['name']}\n" +
                              "\n".join(res.out.splitlines()[-30:]))
